@@ -190,6 +190,8 @@ func bcastRandomCase(c *mon.Case) {
 						wt.bcastAtEval.Store(w.bcastCount.Load())
 						if wr.errAt >= 0 && w.gen >= wr.errAt {
 							err = wr.predErr
+							// some predicates report "done" together with their error
+							done = wr.id%2 == 0
 						} else {
 							done = w.gen >= wr.threshold
 						}
@@ -346,7 +348,9 @@ func bcastRandomCase(c *mon.Case) {
 		c.Count("wait_returns_judged", 1)
 		switch {
 		case wr.err == nil:
-			if !wr.lastDone {
+			if wr.lastErr != nil {
+				c.Violate("bcast", "wait-swallowed-predicate-error", "waiter %d (%s) returned nil although its last predicate evaluation returned (done=%v, err=%v): the predicate's error must be returned unchanged", wr.id, wr.kind, wr.lastDone, wr.lastErr)
+			} else if !wr.lastDone {
 				c.Violate("bcast", "wait-nil-without-true-predicate", "waiter %d (%s) returned nil but its last predicate evaluation returned false (evaluations: %d)", wr.id, wr.kind, wr.evals)
 			}
 		case wr.predErr != nil && wr.err == wr.predErr:
